@@ -909,45 +909,45 @@ Qed.
 
 Definition StepOf (a : action) (s s0 s' : core) : Prop :=
   Log a s s0 /\
-  (ST false (ak a) s0 s' \/ (ST true (ak a) s0 s' /\ guardf a s)) /\
+  ((ST false (ak a) s0 s' /\ (aw a = true -> 16 <= ak a)) \/ (ST true (ak a) s0 s' /\ aw a = true /\ guardf a s)) /\
   (forall i band h, a = AFdSetH i band h -> ST0 (putfd s0 i (seth (fdt s0 i) band h)) s').
 
 Lemma do_action_st : forall s a, wf_action a -> UF s ->
   res_state (do_action s a) = s \/ exists s0, StepOf a s s0 (res_state (do_action s a)).
 Proof.
   intros s a W U.
-  assert (EX0 : forall r, (forall i band h, a <> AFdSetH i band h) ->
+  assert (EX0 : forall r, (forall i band h, a <> AFdSetH i band h) -> (aw a = true -> 16 <= ak a) ->
                ST false (ak a) (emit s (TAct a)) (res_state r) ->
                res_state r = s \/ exists s0, StepOf a s s0 (res_state r)).
-  { intros r NS H. right. exists (emit s (TAct a)). split; [apply Log_emit|]. split; [left; exact H|].
+  { intros r NS AW H. right. exists (emit s (TAct a)). split; [apply Log_emit|]. split; [left; split; assumption|].
     intros i band h E. exfalso. exact (NS _ _ _ E). }
-  assert (EX1 : forall r, (forall i band h, a <> AFdSetH i band h) -> guardf a s ->
+  assert (EX1 : forall r, (forall i band h, a <> AFdSetH i band h) -> aw a = true -> guardf a s ->
                ST true (ak a) (emit s (TAct a)) (res_state r) ->
                res_state r = s \/ exists s0, StepOf a s s0 (res_state r)).
-  { intros r NS G H. right. exists (emit s (TAct a)). split; [apply Log_emit|]. split; [right; split; assumption|].
+  { intros r NS AW G H. right. exists (emit s (TAct a)). split; [apply Log_emit|]. split; [right; split; [assumption|split; assumption]|].
     intros i band h E. exfalso. exact (NS _ _ _ E). }
   destruct a; cbn [do_action]; cbv zeta; cbn [wf_action] in W.
   - (* AFdReg *) destruct (registered (getfd s i)) eqn:RG; [left; reflexivity|].
     destruct (k_open (kern s) (fdnum (getfd s i))); [|left; reflexivity].
-    apply EX1; [discriminate|exact RG|apply fd_register_st].
+    apply EX1; [discriminate|reflexivity|exact RG|apply fd_register_st].
   - (* AFdTry *) destruct (registered (getfd s i)) eqn:RG; [left; reflexivity|].
     pose proof (fd_register_try_st (emit s (TAct (AFdTry i))) i) as H.
     destruct (fd_register_try (emit s (TAct (AFdTry i))) i) as [r failed]. cbn [fst] in H.
-    apply EX1; [discriminate|exact RG|]. apply ST_res_emit; [exact I|exact H].
+    apply EX1; [discriminate|reflexivity|exact RG|]. apply ST_res_emit; [exact I|exact H].
   - (* AFdUnreg *) destruct (registered (getfd s i)); [|left; reflexivity].
-    apply EX0; [discriminate|apply fd_unregister_st].
+    apply EX0; [discriminate|discriminate|apply fd_unregister_st].
   - (* AFdSetH *) right. exists (emit s (TAct (AFdSetH i band h))). split; [apply Log_emit|].
-    split; [left; apply fd_set_handler_st|]. intros i0 b0 h0 E. inversion E; subst. apply fd_set_handler_st0.
-  - (* AFdCookie *) apply EX0; [discriminate|]. cbn [res_state]. apply ST0_ST. apply ST0_putfd. repeat split.
+    split; [left; split; [apply fd_set_handler_st|discriminate]|]. intros i0 b0 h0 E. inversion E; subst. apply fd_set_handler_st0.
+  - (* AFdCookie *) apply EX0; [discriminate|discriminate|]. cbn [res_state]. apply ST0_ST. apply ST0_putfd. repeat split.
   - (* AFdFresh *) destruct (registered (getfd s i)) eqn:RG; [left; reflexivity|].
-    apply EX1; [discriminate|exact RG|]. cbn [res_state aw ak].
+    apply EX1; [discriminate|reflexivity|exact RG|]. cbn [res_state aw ak].
     apply ST_putfd_gen; [|discriminate]. intros R. cbn [fdnum fd_fresh]. sp. symmetry. apply U. exact R.
-  - (* AKSet *) apply EX0; [discriminate|]. cbn [res_state]. apply ST0_ST. apply ST0_kern. sp. apply KX_set_cond.
-  - (* AKClose *) destruct (registered (getfd s i)); [left; reflexivity|]. apply EX0; [discriminate|]. cbn [res_state].
+  - (* AKSet *) apply EX0; [discriminate|discriminate|]. cbn [res_state]. apply ST0_ST. apply ST0_kern. sp. apply KX_set_cond.
+  - (* AKClose *) destruct (registered (getfd s i)); [left; reflexivity|]. apply EX0; [discriminate|discriminate|]. cbn [res_state].
     apply ST0_ST. apply ST0_kern. sp. apply KX_user_close.
-  - (* AKOpen *) apply EX0; [discriminate|]. cbn [res_state]. apply ST0_ST. apply ST0_kern. sp. apply KX_user_fd.
+  - (* AKOpen *) apply EX0; [discriminate|discriminate|]. cbn [res_state]. apply ST0_ST. apply ST0_kern. sp. apply KX_user_fd.
   - (* ATmRegAbs *) destruct (timer_registered s j); [left; reflexivity|].
-    apply EX0; [discriminate|]. apply ST0_ST. apply lift_heap_st0.
+    apply EX0; [discriminate|discriminate|]. apply ST0_ST. apply lift_heap_st0.
   - (* ATmRegRel *) destruct (timer_registered s j); [left; reflexivity|]. right.
     exists (emit (validate_now s) (TAct (ATmRegAbs j (time (validate_now s) + d)))). split; [|split].
     + constructor.
@@ -956,37 +956,37 @@ Proof.
       * unfold validate_now. destruct (time_valid s); reflexivity.
       * unfold validate_now. destruct (time_valid s); reflexivity.
       * unfold validate_now. destruct (time_valid s); reflexivity.
-    + left. apply ST0_ST. apply lift_heap_st0.
+    + left. split; [apply ST0_ST; apply lift_heap_st0|discriminate].
     + intros i b h E. discriminate E.
   - (* ATmUnreg *) destruct (timer_registered s j); [|left; reflexivity].
-    apply EX0; [discriminate|]. apply ST0_ST. apply lift_heap_st0.
-  - (* ATmFresh *) destruct (timer_registered s j); [left; reflexivity|]. apply EX0; [discriminate|]. apply ST_refl.
+    apply EX0; [discriminate|discriminate|]. apply ST0_ST. apply lift_heap_st0.
+  - (* ATmFresh *) destruct (timer_registered s j); [left; reflexivity|]. apply EX0; [discriminate|discriminate|]. apply ST_refl.
   - (* ATkReg *) destruct (task_registered s j); [left; reflexivity|].
-    apply EX0; [discriminate|]. apply ST0_ST. apply task_register_st0.
+    apply EX0; [discriminate|discriminate|]. apply ST0_ST. apply task_register_st0.
   - (* ATkUnreg *) destruct (task_registered s j); [|left; reflexivity].
-    apply EX0; [discriminate|]. apply ST0_ST. apply task_unregister_st0.
+    apply EX0; [discriminate|discriminate|]. apply ST0_ST. apply task_unregister_st0.
   - (* ATkFresh *) destruct (task_registered s j); [left; reflexivity|].
-    apply EX0; [discriminate|]. apply ST0_ST. apply ST0_set_epoch.
+    apply EX0; [discriminate|discriminate|]. apply ST0_ST. apply ST0_set_epoch.
   - (* AEvReg *) destruct (ev_reg s j); [left; reflexivity|].
     destruct (Z.eq_dec (ev_count s) 0) as [E0|N0].
     + pose proof (event_register_st (emit s (TAct (AEvReg j))) j) as H.
       destruct (event_register (emit s (TAct (AEvReg j))) j) as [r failed]. cbn [fst] in H.
-      apply EX1; [discriminate|exact E0|]. apply ST_res_emit; [exact I|exact H].
+      apply EX1; [discriminate|reflexivity|exact E0|]. apply ST_res_emit; [exact I|exact H].
     + pose proof (event_register_st0 (emit s (TAct (AEvReg j))) j N0) as H.
       destruct (event_register (emit s (TAct (AEvReg j))) j) as [r failed]. cbn [fst] in H.
-      apply EX0; [discriminate|]. apply ST0_ST. apply ST0_res_emit; [exact I|exact H].
-  - (* AEvUnreg *) destruct (ev_reg s j); [|left; reflexivity]. apply EX0; [discriminate|]. apply event_unregister_st.
-  - (* AEvPost *) destruct (ev_reg s j); [|left; reflexivity]. apply EX0; [discriminate|]. apply ST0_ST. apply event_post_st0.
-  - (* AEvFresh *) destruct (ev_reg s j); [left; reflexivity|]. apply EX0; [discriminate|]. apply ST_refl.
+      apply EX0; [discriminate|intros _; cbn [ak]; lia|]. apply ST0_ST. apply ST0_res_emit; [exact I|exact H].
+  - (* AEvUnreg *) destruct (ev_reg s j); [|left; reflexivity]. apply EX0; [discriminate|discriminate|]. apply event_unregister_st.
+  - (* AEvPost *) destruct (ev_reg s j); [|left; reflexivity]. apply EX0; [discriminate|discriminate|]. apply ST0_ST. apply event_post_st0.
+  - (* AEvFresh *) destruct (ev_reg s j); [left; reflexivity|]. apply EX0; [discriminate|discriminate|]. apply ST_refl.
   - (* ARwReg *) destruct (rw_reg s j) eqn:RG; [left; reflexivity|].
     pose proof (raw_register_st (emit s (TAct (ARwReg j))) j ltac:(unfold ok_idx in W; lia)) as H.
     destruct (raw_register (emit s (TAct (ARwReg j))) j) as [r failed]. cbn [fst] in H.
-    apply EX1; [discriminate|exact RG|]. apply ST_res_emit; [exact I|exact H].
-  - (* ARwUnreg *) destruct (rw_reg s j); [|left; reflexivity]. apply EX0; [discriminate|]. apply raw_unregister_st.
-  - (* ARwPost *) destruct (rw_reg s j); [|left; reflexivity]. apply EX0; [discriminate|]. apply ST0_ST. apply raw_post_st0.
-  - (* ARwFresh *) destruct (rw_reg s j); [left; reflexivity|]. apply EX0; [discriminate|]. apply ST_refl.
-  - (* AQuit *) apply EX0; [discriminate|]. apply ST0_ST. apply ST0_set_quit.
-  - (* AClockAdv *) apply EX0; [discriminate|]. cbn [res_state]. apply ST0_ST. apply ST0_kern. sp. apply KX_set_clock.
-  - (* AInvalidate *) apply EX0; [discriminate|]. apply ST0_ST. apply invalidate_st0.
-  - (* AValidate *) apply EX0; [discriminate|]. apply ST0_ST. apply validate_st0.
+    apply EX1; [discriminate|reflexivity|exact RG|]. apply ST_res_emit; [exact I|exact H].
+  - (* ARwUnreg *) destruct (rw_reg s j); [|left; reflexivity]. apply EX0; [discriminate|discriminate|]. apply raw_unregister_st.
+  - (* ARwPost *) destruct (rw_reg s j); [|left; reflexivity]. apply EX0; [discriminate|discriminate|]. apply ST0_ST. apply raw_post_st0.
+  - (* ARwFresh *) destruct (rw_reg s j); [left; reflexivity|]. apply EX0; [discriminate|discriminate|]. apply ST_refl.
+  - (* AQuit *) apply EX0; [discriminate|discriminate|]. apply ST0_ST. apply ST0_set_quit.
+  - (* AClockAdv *) apply EX0; [discriminate|discriminate|]. cbn [res_state]. apply ST0_ST. apply ST0_kern. sp. apply KX_set_clock.
+  - (* AInvalidate *) apply EX0; [discriminate|discriminate|]. apply ST0_ST. apply invalidate_st0.
+  - (* AValidate *) apply EX0; [discriminate|discriminate|]. apply ST0_ST. apply validate_st0.
 Qed.
